@@ -303,6 +303,8 @@ class Oracle:
         self.started = False     # an accepted INST seen (C01 ledger histories)
         self.seeded = False
         self.closed = set()
+        self.role_exec = None    # executor / approver lists as the accepted requests set them (independent of storage)
+        self.role_appr = None
         self.meta_version = getattr(self, "meta_version", None)
 
     def restricted(self, d):
@@ -537,9 +539,11 @@ class Oracle:
             except Exception:
                 pass
         probe = k in ("PEXEC", "PMIGRATE")
-        # ---- C05: accepted privileged request => role (state before)
+        # ---- C05: accepted privileged request => role (state before; role lists tracked from the accepted requests)
         if b.ok and k in ("EXEC", "PEXEC") and self.cfg is not None:
             s = ev.sender
+            execs = self.role_exec if self.role_exec is not None else self.cfg.executors
+            apprs = self.role_appr if self.role_appr is not None else self.cfg.approvers
             ai, bi = ev.ids()
             why = None
             if ev.sub == "cancel_ask":
@@ -552,10 +556,10 @@ class Oracle:
                     why = "cancel_bid by a non-owner"
             elif ev.sub in ("expire_ask", "expire_bid", "reject_ask", "reject_bid", "execute_match",
                             "modify_contract"):
-                if s not in self.cfg.executors:
+                if s not in execs:
                     why = "%s by a non-executor" % ev.sub
             elif ev.sub == "approve_ask":
-                if s not in self.cfg.approvers:
+                if s not in apprs:
                     why = "approve_ask by a non-approver"
             if why:
                 out.append(("C05", None, why))
@@ -777,6 +781,24 @@ class Oracle:
                 diff = sorted(set(hold.items()) ^ set(owed.items()))
                 out.append(("C01", None, "holdings differ from what open orders are owed: %r" % (diff,)))
                 self.tainted = self.tainted or "C01"
+        if b.ok and not probe:
+            try:
+                if k == "INST":
+                    self.role_appr, self.role_exec = fmt.dlist(ev.tok[6]), fmt.dlist(ev.tok[7])
+                elif k == "EXEC" and ev.sub == "modify_contract":
+                    ap, ex = fmt.dopt(ev.args[0], fmt.dlist), fmt.dopt(ev.args[1], fmt.dlist)
+                    if ap is not None and self.role_appr is not None:
+                        self.role_appr = ap
+                    if ex is not None and self.role_exec is not None:
+                        self.role_exec = ex
+                elif k == "MIGRATE":
+                    ap = fmt.dopt(ev.tok[1], fmt.dlist)
+                    if ap is not None and self.role_appr is not None:
+                        self.role_appr = ap
+                elif k.startswith("SEED"):
+                    self.role_appr = self.role_exec = None
+            except Exception:
+                self.role_appr = self.role_exec = None
         if b.ok and b.has_dump and not probe:
             self.asks, self.bids, self.cfg, self.ver = b.asks, b.bids, b.cfg, b.ver
         return out
